@@ -90,17 +90,21 @@ impl Obs {
         let mut sub = self.events.lock().unwrap();
         loop {
             match sub.try_recv() {
-                Ok(info) => self.on_event(info.event),
+                Ok(info) => {
+                    // judged at the instant the event was generated (the clock may jump before it is drained)
+                    let at_ns = info.time.duration_since(std::time::UNIX_EPOCH).map(|d| d.as_nanos() as i64).unwrap_or_else(|_| self.ctx.wall_now_ns());
+                    self.on_event(info.event, at_ns)
+                }
                 Err(TryRecvError::Empty) | Err(TryRecvError::Closed) => break,
             }
         }
     }
 
-    fn on_event(&self, ev: NodeEvent) {
+    fn on_event(&self, ev: NodeEvent, at_ns: i64) {
         match ev {
             NodeEvent::FetchingHeadersStarted { from_height, to_height } => {
                 self.ctx.ev("ev.fetch_started", from_height, to_height);
-                self.check_batch(from_height, to_height);
+                self.check_batch(from_height, to_height, at_ns);
             }
             NodeEvent::FetchingHeadersFinished { from_height, to_height, .. } => {
                 self.ctx.ev("ev.fetch_finished", from_height, to_height);
@@ -123,7 +127,7 @@ impl Obs {
         }
     }
 
-    fn check_batch(&self, from: u64, to: u64) {
+    fn check_batch(&self, from: u64, to: u64, at_ns: i64) {
         let ctx = &self.ctx;
         let mut st = self.st.lock().unwrap();
         st.batch = Some((from, to));
@@ -197,7 +201,7 @@ impl Obs {
                 let edge = to + 1;
                 if synced.contains(&edge) && edge <= self.chain.len() {
                     let t = time_to_ns(self.chain.time_of(edge));
-                    let now = ctx.wall_now_ns();
+                    let now = at_ns;
                     if t < now - self.sampling_window_ns - EPS_NS {
                         let key = if stored.contains(&edge) { "bounding_header_stored" } else { "bounding_header_pruned" };
                         ctx.violation("C25", "window_edge", key,
@@ -593,7 +597,11 @@ async fn run_sync(ctx: &Arc<RunCtx>, prune_any: bool) {
     let block_time_ms = *ctx.pick("cfg.block_time", &[6000u64, 3000, 12000, 30000]);
     let chain_len = ctx.range("cfg.chain_len", 40, if thorough { 600 } else { 220 });
     // how many blocks lie in the future at t=0 (they become network heads as time advances)
-    let future_blocks = ctx.range("cfg.future_blocks", 5, (chain_len / 3).max(6));
+    // one long suspension (laptop lid closed): the wall clock jumps past the whole pruning window
+    // while the process keeps its state; everything stored is outside both windows afterwards.
+    // Such runs get short windows and many future blocks so that the chain outlasts the jump.
+    let suspend = ctx.coin("cfg.suspend", 200);
+    let future_blocks = if suspend { (chain_len / 2).max(6) } else { ctx.range("cfg.future_blocks", 5, (chain_len / 3).max(6)) };
     let chain = Chain::cached(ChainParams {
         class: ctx.range("cfg.chain_class", 0, 3),
         len: chain_len,
@@ -602,10 +610,14 @@ async fn run_sync(ctx: &Arc<RunCtx>, prune_any: bool) {
         head_offset_ms: (future_blocks * block_time_ms) as i64,
     });
     let span_s = chain_len * block_time_ms / 1000;
-    let sampling_window = Duration::from_secs(ctx.range("cfg.sampling_window_s", span_s / 8 + 10, span_s * 2 + 60));
+    let sampling_window = Duration::from_secs(if suspend {
+        ctx.range("cfg.sampling_window_s", span_s / 16 + 10, span_s / 6 + 10)
+    } else {
+        ctx.range("cfg.sampling_window_s", span_s / 8 + 10, span_s * 2 + 60)
+    });
     // pruning window never smaller than the sampling window here (the slow-sync throttle would
     // otherwise need a real daser); it may be smaller than the chain's age
-    let pruning_window = sampling_window + Duration::from_secs(ctx.range("cfg.pruning_extra_s", 0, 3600));
+    let pruning_window = sampling_window + Duration::from_secs(ctx.range("cfg.pruning_extra_s", 0, if suspend { 30 } else { 3600 }));
     let batch_size = *ctx.pick("cfg.batch_size", &[16u64, 1, 7, 64, 100, 512, 600]);
     // delay before each store call of the syncer: mostly none or a few ms, sometimes long enough
     // for the pruner / header-sub to act between two consecutive calls
@@ -617,7 +629,8 @@ async fn run_sync(ctx: &Arc<RunCtx>, prune_any: bool) {
     let churn = ctx.coin("cfg.churn", 500);
     let gossip_loss = if ctx.coin("cfg.gossip_loss_on", 400) { ctx.range("cfg.gossip_loss", 50, 700) as u32 } else { 0 };
     let clock_jumps = ctx.coin("cfg.clock_jumps", 150);
-    let prune_on = prune_any || ctx.coin("cfg.prune_on", 500);
+    let mut suspend_left = if suspend { 1u32 } else { 0 };
+    let prune_on = prune_any || suspend || ctx.coin("cfg.prune_on", 500);
     let prefill = ctx.coin("cfg.prefill", 400);
     ctx.note("config", format!("len={chain_len} bt={block_time_ms} sw={}s pw={}s batch={batch_size} peers={n_peers} byz={byz_permille} faults={fault_phase_s}s churn={churn} prune={prune_on}",
         sampling_window.as_secs(), pruning_window.as_secs()));
@@ -793,6 +806,9 @@ async fn run_sync(ctx: &Arc<RunCtx>, prune_any: bool) {
                         header_sub = Some((*head, channel));
                     }
                     P2pCommand::GetNetworkHead { respond_to } => {
+                        if let Some((h, _)) = header_sub.as_ref() {
+                            obs.told(h.height());
+                        }
                         let _ = respond_to.send(header_sub.as_ref().map(|(h, _)| h.clone()));
                     }
                     P2pCommand::GetNetworkCompromisedToken { respond_to } => {
@@ -870,6 +886,19 @@ async fn run_sync(ctx: &Arc<RunCtx>, prune_any: bool) {
                         drop(ps);
                         mock.set_peer_info(net.info());
                     }
+                    if suspend_left > 0 && ctx.coin("clock.suspend", 25) {
+                        let jump_ms = pruning_window.as_millis() as u64 + ctx.range("clock.suspend_extra_ms", 0, 60_000);
+                        let blocks = jump_ms / block_time_ms + 1;
+                        // only while the pre-generated chain still has heads to announce afterwards
+                        if net.network_head() + blocks + 8 < chain.len() {
+                            suspend_left -= 1;
+                            ctx.fault("suspended_longer_than_pruning_window");
+                            ctx.ev("clock.suspend", jump_ms, 0);
+                            ctx.jump_wall_clock(jump_ms as i64 * 1_000_000);
+                            // what was announced meanwhile is gone; gossip resumes at the head
+                            next_gossip_height = next_gossip_height.max(net.network_head());
+                        }
+                    }
                     if clock_jumps && ctx.coin("clock.jump", 20) {
                         ctx.jump_wall_clock(ctx.range("clock.jump_ms", 1, 120_000) as i64 * 1_000_000);
                     }
@@ -887,8 +916,10 @@ async fn run_sync(ctx: &Arc<RunCtx>, prune_any: bool) {
                             prune_any || time_to_ns(chain.time_of(*h)) < now_ns - pruning_window.as_nanos() as i64
                         }).collect();
                         if !cands.is_empty() {
-                            // prune a run of headers from the tail, or any single header
-                            let k = ctx.range("prune.count", 1, 6).min(cands.len() as u64);
+                            // prune a run of headers from the tail, or any single header; now
+                            // and then everything that is out of the window (the real pruner
+                            // works in batches of 512)
+                            let k = if ctx.coin("prune.sweep", 200) { cands.len() as u64 } else { ctx.range("prune.count", 1, 6).min(cands.len() as u64) };
                             for j in 0..k {
                                 let h = if prune_any && ctx.coin("prune.random", 300) {
                                     cands[ctx.choose("prune.idx", cands.len() as u32) as usize]
